@@ -119,6 +119,7 @@ type interpreter struct {
 	initFnDone   map[*ssa.Function]bool
 	hashes       []hashEntry
 	abiEvents    map[string]bool
+	bitsN        int
 	hashN        int
 	symMapOrder  bool
 	mapOrderN    int
